@@ -132,6 +132,20 @@ def gen(rng, tier):
     return _misc.gen_lock(rng)
 
 
+def validate(sc):
+    """Structural validation only (what run() does first); used to prove the generator never emits an invalid scenario."""
+    fam = sc.get("fam")
+    if fam == "paxos":
+        return _single._validate(sc)
+    if fam in ("multi", "flex"):
+        return _multi._validate(sc)
+    if fam == "election":
+        return _misc.validate_election(sc)
+    if fam == "lock":
+        return _misc.validate_lock(sc)
+    raise InvalidScenario("fam")
+
+
 def run(sc):
     fam = sc.get("fam")
     if fam == "paxos":
